@@ -1355,29 +1355,24 @@ class Bits:
         new_slice = bitstring.bitstore.offset_slice_indices_lsb0(slice(start, end, None), len(self))
         msb0_start, msb0_end = self._validate_slice(new_slice.start, new_slice.stop)
 
-        # Search chunks starting near the end and then moving back.
+        # Search chunks starting near the end and then moving back. Each chunk ends len(bs) - 1 bits after the
+        # start of the previous one, so that a match is found in exactly one chunk.
         c = 0
         increment = max(8192, len(bs) * 80)
-        buffersize = min(increment + len(bs), msb0_end - msb0_start)
-        pos = max(msb0_start, msb0_end - buffersize)
+        chunk_end = msb0_end
         while True:
-            found = list(self._findall_msb0(bs, start=pos, end=pos + buffersize, count=None, bytealigned=False))
-            if not found:
-                if pos == msb0_start:
-                    return
-                pos = max(msb0_start, pos - increment)
-                continue
+            pos = max(msb0_start, chunk_end - increment - len(bs))
+            found = list(self._findall_msb0(bs, start=pos, end=chunk_end, count=None, bytealigned=False))
             while found:
-                if count is not None and c >= count:
-                    return
-                c += 1
                 lsb0_pos = len(self) - found.pop() - len(bs)
                 if not bytealigned or lsb0_pos % 8 == 0:
+                    if count is not None and c >= count:
+                        return
+                    c += 1
                     yield lsb0_pos
-
-            pos = max(msb0_start, pos - increment)
             if pos == msb0_start:
                 return
+            chunk_end = pos + len(bs) - 1
 
     def rfind(self, bs: BitsType, /, start: Optional[int] = None, end: Optional[int] = None,
               bytealigned: Optional[bool] = None) -> Union[Tuple[int], Tuple[()]]:
